@@ -45,10 +45,44 @@ Definition bytes_overrun (t : ty) (bs : list byte) : bool :=
   | _, _ => false
   end.
 
-(* guard of finding C12 map-noncanonical: the decoder accepts the input only because decodeMap
-   takes entries in any key order / with repeated keys *)
+(* the decoder with both hypothetical repairs: chunked decodeBytes and strict map keys *)
+Definition repaired (c : cfg) : cfg := strict (with_bytes c).
+
+(* guard of finding C12 map-noncanonical: the input is accepted only because decodeMap takes
+   entries in any key order / with repeated keys: the decoder with the chunked decodeBytes accepts
+   it, the one that also requires strictly ascending keys rejects it.  (Second round: compared
+   from [with_bytes current] rather than from [current], so that "no guard fires" is exactly the
+   hypothesis of C12_prefix_guarded; on inputs without byte-string overrun the two coincide.) *)
 Definition map_noncanonical (t : ty) (bs : list byte) : bool :=
-  match decode_res current t bs, decode_res (strict current) t bs with
+  match decode_res (with_bytes current) t bs, decode_res (repaired current) t bs with
   | Ok _, Err _ => true
+  | _, _ => false
+  end.
+
+(* ---- second round (auditor): decoding into a destination that already holds a value.
+   The harness also decodes into pre-populated destinations (`dec dirty ... <dirt>`); the result
+   must not depend on the previous content, so the model is the same [decode].  One defect class
+   remains on the tree (finding dirty-nested-option): decodePointer, on Some, into a destination
+   pointer that is non-nil and whose pointee is again a Go pointer (option of an option, of a
+   *big.Int or of a *Uint128), unmarshals into pointee.Elem(), skipping one level: an
+   Option<big> keeps its old number and consumes nothing, an Option<Option<T>> decodes T from
+   the inner option byte, and a destination holding Some(None) panics (pkg/scale's own
+   Test_unmarshal_optionality pins the branch).  The guard: the previous content [d] of the
+   destination has a Some at such a type in a position that flows into the decode - struct
+   fields, the pointee of a Some, the held alternative of a result (slices, arrays, enums and
+   map entries are rebuilt from fresh values). *)
+Definition ptr_repr (t : ty) : bool :=
+  match t with TOption _ | TBig | TU128 => true | _ => false end.
+Fixpoint dirty_nested (t : ty) (d : value) {struct d} : bool :=
+  match d, t with
+  | VSome d', TOption t' => ptr_repr t' || dirty_nested t' d'
+  | VOk d', TResult a _ => dirty_nested a d'
+  | VErr d', TResult _ b => dirty_nested b d'
+  | VList ds, TStruct fs => dirty_nested_fields fs ds
+  | _, _ => false
+  end
+with dirty_nested_fields (fs : tys) (ds : vals) {struct ds} : bool :=
+  match ds, fs with
+  | VCons d r, TCons _ t fr => dirty_nested t d || dirty_nested_fields fr r
   | _, _ => false
   end.
